@@ -114,7 +114,7 @@ P("C02", module="AJ.Props.C02All", extra=[("AJ.Props.C02", ["C02"]), ("AJ.Props.
                                                                                                                        S.JsonSerSuite(cfg={"ENABLE_INFINITY": 1}, n=300), S.JsonSerSuite(cfg={"ENABLE_NAN": 1}, n=300)]),
   partial=["NaN/Infinity texts under the non-standard options are outside the grammar by design"])
 
-P("C03", module="AJ.Props.C03All", extra=[("AJ.Props.C03", ["C03"]), ("AJ.Props.C03Doc", ["C03"]), ("AJ.Props.C03MpDoc", ["C03"])], level_text="C03.deserialized_document_wf(_any_oracle) / _traversable / _clearable / _reusable: for EVERY byte string, limit, configuration, starting document and allocator-failure schedule, the slot-level models of deserializeJson AND deserializeMsgPack (mp_* twins) leave a well-formed document (chains acyclic, slots used once and live, reference counts sufficient) that can be traversed, cleared and deserialized into again by either format, whatever code is returned. Theorems for every configuration, limit, filter and byte string, JSON (filtered and unfiltered) and MessagePack: the deserializer never takes more bytes "
+P("C03", module="AJ.Props.C03All", extra=[("AJ.Props.C03", ["C03"]), ("AJ.Props.C03Doc", ["C03"]), ("AJ.Props.C03MpDoc", ["C03"]), ("AJ.Props.C03FDoc", ["C03"]), ("AJ.Props.C03FMpDoc", ["C03"])], level_text="C03.filtered_(mp_)deserialized_document_wf / _traversable / _clearable / _reusable: the same four statements for the FILTERED deserializers (models JDDF/MDDF), every filter. C03.deserialized_document_wf(_any_oracle) / _traversable / _clearable / _reusable: for EVERY byte string, limit, configuration, starting document and allocator-failure schedule, the slot-level models of deserializeJson AND deserializeMsgPack (mp_* twins) leave a well-formed document (chains acyclic, slots used once and live, reference counts sufficient) that can be traversed, cleared and deserialized into again by either format, whatever code is returned. Theorems for every configuration, limit, filter and byte string, JSON (filtered and unfiltered) and MessagePack: the deserializer never takes more bytes "
   "than the input has; it terminates (the model's fuel 2*len+4 is never exhausted) and never reaches a fault state (powers-of-ten table index in range for every literal); the code is "
   "one of the six documented ones. The model is compared with the real library on bounded-exhaustive token sequences, mutated and random inputs through nine reader kinds, inputs in "
   "exactly-sized heap blocks under ASan+UBSan; source independence is checked on the implementation directly.",
@@ -125,17 +125,19 @@ P("C03", module="AJ.Props.C03All", extra=[("AJ.Props.C03", ["C03"]), ("AJ.Props.
                        S.JsonAnySuite(cfg={"arduino": 1}, n=4000 if tier == "quick" else 100000, maxlen=2)] +
   ([S.JsonAnySuite(cfg=CFG_ALL, n=200000), S.JsonAnySuite(cfg=CFG_NOUNI, n=100000)] if tier == "thorough" else [S.JsonAnySuite(cfg=CFG_ALL, n=8000)]))
 
-P("C07", module="AJ.Props.C07All", extra=[("AJ.Props.C07", ["C07"]), ("AJ.Props.C07Float", ["C07"])],
+P("C07", module="AJ.Props.C07All", extra=[("AJ.Props.C07", ["C07"]), ("AJ.Props.C07Float", ["C07"]), ("AJ.Props.C07Cross", ["C07"])],
   level_text="Theorems: MessagePack round trip for every raw-free document within limits (accepted, exact consumption, result = norm d with numerically equal numbers, second "
   "serialization byte-identical); JSON: json_roundtrip_all (the deserializer model reads serializeJson's text back as readBack d: same structure, order, keys, strings, integers exact), and "
   "C07.json_roundtrip_floats_close: every floating-point leaf comes back within the composed C12 bounds - float_through_json: a double x in [1e-300,1e300] comes back as y with "
   "|y-x| <= 1e-9*max(1,|x|) + 1e-6*|x|, and within 1e-9*max(1,|x|) whenever the text has more than seven significant digits (the parser reads short texts in binary32: kernel-checked witness, "
   "the double 0.1 prints as 0.1 and is read back as the float 0.1f); float32_through_json; integral_double_back / zero_back: floats with integral value below 1e7 and zeros come back as "
   "integers of the same value. Documents from three generators are pushed through the real library both ways and across formats; the equalities are evaluated on the implementation's outputs "
-  "and compared with the model.",
-  level_note="cross-format conversion (JSON -> document -> MessagePack -> document) is evaluated on the implementation's outputs; known finding: raw control characters in serializeJson's text (C02)",
-  suites=lambda tier: [S.RoundTripSuite(cfg=DEF)],
-  partial=["cross-format conversion as a theorem"])
+  "and compared with the model. Cross-format (lean/AJ/Props/C07Cross.lean): C07.cross_format - for EVERY text the JSON deserializer accepts (dialect extensions included), the MessagePack bytes of "
+  "the document are read back by deserializeMsgPack (any string limit >= the JSON one, any nesting limit >= the JSON one, any trailing bytes) as norm(document), which compares equal to the document "
+  "in both directions unless it contains a NaN (nan_not_equal: the exception is real); json_values_are_rawfree / json_keys_within_limit / json_no_nan: what every JSON-parsed document satisfies, for any result code; "
+  "C07.json_of_document and msgpack_to_json: the other direction (a document read from MessagePack, serialized as JSON and read back).",
+  level_note="known finding: raw control characters in serializeJson's text (C02); msgpack_to_json assumes no repeated keys (a document with a repeated key does not compare equal to itself, C18 finding)",
+  suites=lambda tier: [S.RoundTripSuite(cfg=DEF)])
 
 P("C08", level_text="Theorem: for every raw-free document within the 64-bit/32-bit limits, an independent decoder written from the MessagePack specification decodes "
   "serializeMsgPack's output to exactly one object denoting the document (integers by value and sign, strings byte-exact, floats bit-exact or the integer of the same value, narrowing of "
@@ -174,18 +176,25 @@ P("C10", module="AJ.Props.C10All", extra=[("AJ.Props.C10", ["C10"]), ("AJ.Props.
   suites=lambda tier: [S.JsonAnySuite(cfg=DEF), S.JsonAnySuite(cfg=CFG_ALL, n=6000 if tier == "quick" else 300000), S.JsonAnySuite(cfg=CFG_NOUNI, n=3000 if tier == "quick" else 100000)],
   partial=["finality of InvalidInput for Dangling texts other than a lone sign"])
 
-P("C11", module="AJ.Props.C11All", extra=[("AJ.Props.C11", ["C11"]), ("AJ.Props.C11Full", ["C11"]), ("AJ.Props.C11Mp", ["C11"])],
+P("C11", module="AJ.Props.C11All", extra=[("AJ.Props.C11", ["C11"]), ("AJ.Props.C11Full", ["C11"]), ("AJ.Props.C11Mp", ["C11"]), ("AJ.Props.C11Mem", ["C11"]), ("AJ.Props.C11Doc", ["C11"]), ("AJ.Props.C11Slot", ["C11"]), ("AJ.Props.C11MpSlot", ["C11"]), ("AJ.Props.C11MpDoc", ["C11"])],
   level_text="Theorem C11.json_projection_all_inputs: for every configuration, nesting limit, filter and input on which the unfiltered run returns Ok, the filtered run returns Ok, the "
   "projection (lean/AJ/Spec/Filter.lean: recursive, `*` wildcard, first array element, false removes, null falls back to `*`) of the unfiltered document, and the same number of bytes consumed - "
   "repeated keys, dialect extensions and trailing bytes included; C11.skip_and_filter_simulate_parse: skipping a value leaves the reader in literally the same state as parsing it; "
   "C11.msgpack_projection_all_inputs: the same statement for deserializeMsgPack (members projected one by one, repeated keys kept, bin/ext as scalars), with msgpack_filter_simulates_parse for "
   "any reader state and the commutation with the doubles-disabled narrowing; the filter `true` (and AllowAll) is the identity on every input, malformed included, for JSON and MessagePack; a value "
-  "is never produced into an absent destination. Pairs (input, filter) are "
+  "is never produced into an absent destination. SLOT LEVEL (models lean/AJ/Model/JDDF.lean, MDDF.lean with the builder/buffer allocation pattern, tied by the allocator log): "
+  "C11.filtered_slot_level_refines (the filtered slot-level deserializer refines the value-level one for every filter, allocator schedule and prior document), C11.filtered_document_is_projection "
+  "(the document left reads back as the projection of the document the unfiltered run leaves), skipped_values_do_not_touch_document (a filter allowing nothing makes no allocator call); memory: "
+  "C11.projected_strings_subset / projected_string_bytes_le / projected_tree_slots_le / projected_live_slots_le - a document reading back as the projection of another stores a subset of its strings, no more "
+  "string bytes, tree slots or live slots. Pairs (input, filter) are "
   "run through the real library, compared with the model and with the projection of the unfiltered result computed independently; memory requested by both runs is compared.",
-  level_note="the memory clause is checked on the implementation only (three measures from the allocator ledger); two known findings about it",
+  level_note="the memory clause as stated (total requested) is false on the implementation (two known findings); what is proved is the comparison of what the two documents HOLD (strings, slots), "
+  "and the requests themselves are tied to the slot-level model by the allocator log",
   suites=lambda tier: [S.FilterSuite(cfg=DEF), S.FilterSuite(cfg=CFG_ALL, n=2500 if tier == "quick" else 100000), S.FilterSuite(cfg={"USE_DOUBLE": 0}, n=2000 if tier == "quick" else 80000),
                        S.JsonDocFSuite(cfg=DEF, n=1500 if tier == "quick" else 120000), S.JsonDocFSuite(cfg=CFG_ALL, n=600 if tier == "quick" else 50000),
-                       S.JsonDocFSuite(cfg=G["tiny1"], n=400 if tier == "quick" else 40000), S.JsonDocFSuite(cfg=G["len1"], n=400 if tier == "quick" else 40000)],
+                       S.JsonDocFSuite(cfg=G["tiny1"], n=400 if tier == "quick" else 40000), S.JsonDocFSuite(cfg=G["len1"], n=400 if tier == "quick" else 40000),
+                       S.MpDocFSuite(cfg=DEF, n=1500 if tier == "quick" else 120000), S.MpDocFSuite(cfg=G["tiny1"], n=400 if tier == "quick" else 40000),
+                       S.MpDocFSuite(cfg=G["len1"], n=400 if tier == "quick" else 40000), S.MpDocFSuite(cfg=G["tiny2"], n=400 if tier == "quick" else 40000)],
   partial=["memory clause"])
 
 P("C12", module="AJ.Props.C12All", extra=[("AJ.Props.C12", ["C12"]), ("AJ.Props.C12Print", ["C12"])],
@@ -244,7 +253,7 @@ P("C18", level_text="Theorems for all values: != is the negation of ==, <= is < 
   level_note="known finding: == is asymmetric for objects with repeated keys (reachable through MessagePack)",
   suites=lambda tier: [S.CmpSuite(cfg=DEF), S.CmpSuite(cfg={"USE_DOUBLE": 0})])
 
-P("C04", module="AJ.Props.C04All", extra=[("AJ.Props.C04", ["C04"]), ("AJ.Props.C04Hist", ["C04"]), ("AJ.Props.C04Rem", ["C04"]), ("AJ.Props.C04Copy", ["C04"]), ("AJ.Props.C14Hist", ["C04"]), ("AJ.Props.C04Deser", ["C04"]), ("AJ.Props.C04HistDeser", ["C04"])],
+P("C04", module="AJ.Props.C04All", extra=[("AJ.Props.C04", ["C04"]), ("AJ.Props.C04Hist", ["C04"]), ("AJ.Props.C04Rem", ["C04"]), ("AJ.Props.C04Copy", ["C04"]), ("AJ.Props.C14Hist", ["C04"]), ("AJ.Props.C04Deser", ["C04"]), ("AJ.Props.C04HistDeser", ["C04"]), ("AJ.Props.C04DocCopy", ["C04"])],
   level_text="Theorems about the slot-level document model (total definitions over pools, free list, next-linked chains with head/tail, extension slots, "
   "reference-counted strings) under the invariant WF = ghost layout WFG (chains acyclic, tail = last slot, slots used once, live in the pool) + string table StrOK (reference counts = number of "
   "referring slots): the abstraction to an ordered tree never runs out of fuel; array append refines list append and keeps WF; set of every scalar/string kind (incl. 64-bit extension slots, "
@@ -271,7 +280,7 @@ P("C04", module="AJ.Props.C04All", extra=[("AJ.Props.C04", ["C04"]), ("AJ.Props.
   ([S.HistSuite(cfg=G[g], nh=1500) for g in ("tiny2", "id1c10", "id1i3", "len1", "len4")] if tier == "thorough" else []),
   partial=["document-level copy/swap/move as theorems"])
 
-P("C05", module="AJ.Props.C05All", extra=[("AJ.Props.C05", ["C05"]), ("AJ.Props.C05Doc", ["C05"]), ("AJ.Props.C05Copy", ["C05"]), ("AJ.Props.C05Deser", ["C05"]), ("AJ.Props.C05MpDeser", ["C05"])],
+P("C05", module="AJ.Props.C05All", extra=[("AJ.Props.C05", ["C05"]), ("AJ.Props.C05Doc", ["C05"]), ("AJ.Props.C05Copy", ["C05"]), ("AJ.Props.C05Deser", ["C05"]), ("AJ.Props.C05MpDeser", ["C05"]), ("AJ.Props.C05FDeser", ["C05"]), ("AJ.Props.C05FMpDeser", ["C05"])],
   level_text="Theorems at the slot-pool level for every state reachable under every failure oracle (one-shot positions and fail-from-k): a failed allocation changes no "
   "live slot and keeps the pool invariant, clear() returns every block, and the allocator works again afterwards. At document level (C05.add_element_fail_clean, set_fail_clean, "
   "add_member_fail_clean): when adding an element, storing a value or adding a member fails for lack of memory, the document is flagged overflowed, stays well-formed (WF), denotes exactly "
@@ -286,14 +295,17 @@ P("C05", module="AJ.Props.C05All", extra=[("AJ.Props.C05", ["C05"]), ("AJ.Props.
   level_note="C05.deser_failure_reported / deser_failure_leaves_wf_and_clear_returns_all: for deserializeJson (slot-level model) under ANY failure schedule: Ok implies not overflowed, NoMemory implies overflowed, "
   "overflowed implies not Ok; the document stays well formed and clear() returns every block; the same for deserializeMsgPack (mp_deser_*), where moreover NoMemory <-> overflowed; deserialization into a value inside a "
   "document (C04.deser_into_value) keeps the rest of the document intact under any failure; "
+  "the same statements for the FILTERED deserializers, every filter (C05.filtered_deser_* / filtered_mp_deser_*: a skipped member can still make the run answer NoMemory - its key goes through the string builder - "
+  "and that is reported and flagged like any other); "
   "documents keep their own allocator in the fault histories (no copy-assignment/swap)",
   suites=lambda tier: [S.FaultSuite(cfg=G["default"]), S.FaultSuite(cfg=G["tiny1"], nh=120 if tier == "quick" else 3000), S.FaultSuite(cfg=G["tiny2"], nh=80 if tier == "quick" else 3000),
                        S.DeserFaultSuite(cfg=G["default"]), S.DeserFaultSuite(cfg=G["tiny2"], n=300 if tier == "quick" else 20000),
-                       S.JsonDocSuite(cfg=DEF, n=1500 if tier == "quick" else 150000), S.MpDocSuite(cfg=DEF, n=1500 if tier == "quick" else 150000), S.DeserShareSuite(cfg=G["tiny2"]), S.FlagTravelSuite(cfg=G["tiny2"]), S.FlagTravelSuite(cfg=DEF)] +
+                       S.JsonDocSuite(cfg=DEF, n=1500 if tier == "quick" else 150000), S.MpDocSuite(cfg=DEF, n=1500 if tier == "quick" else 150000), S.DeserShareSuite(cfg=G["tiny2"]), S.FlagTravelSuite(cfg=G["tiny2"]), S.FlagTravelSuite(cfg=DEF),
+                       S.JsonDocFSuite(cfg=DEF, n=600 if tier == "quick" else 60000), S.MpDocFSuite(cfg=DEF, n=600 if tier == "quick" else 60000)] +
   ([S.FaultSuite(cfg=G[g], nh=2000) for g in ("id1", "tiny2", "id1c10")] if tier == "thorough" else []),
-  partial=["filtered deserialization at slot level (the filtered runs are related to the unfiltered one at value level, C11)"])
+  partial=["allocation failures inside the compiled binary are exercised by schedules, not enumerated exhaustively; the theorems are about the slot-level models tied by the allocator log"])
 
-P("C06", module="AJ.Props.C06All", extra=[("AJ.Props.C19", ["C06"]), ("AJ.Props.C06Doc", ["C06"]), ("AJ.Props.C05Deser", ["C06"]), ("AJ.Props.C05MpDeser", ["C06"]), ("AJ.Props.C06Mem", ["C06"])],
+P("C06", module="AJ.Props.C06All", extra=[("AJ.Props.C19", ["C06"]), ("AJ.Props.C06Doc", ["C06"]), ("AJ.Props.C05Deser", ["C06"]), ("AJ.Props.C05MpDeser", ["C06"]), ("AJ.Props.C06Mem", ["C06"]), ("AJ.Props.C06FExact", ["C06"]), ("AJ.Props.C05FMpDeser", ["C06"])],
   level_text="Theorems at the slot-pool level: a released slot is reused before any allocator call, the allocator is called only "
   "when the free list is empty and the last pool is full or absent, clear() releases exactly one block per pool plus the heap table and nothing else. At document level (C06Doc): "
   "free_after_clear / clear_then_add(s)_no_allocator_call - the slots released by clearing a subtree are exactly those handed out by the next insertions, with no allocator call; "
@@ -304,7 +316,9 @@ P("C06", module="AJ.Props.C06All", extra=[("AJ.Props.C19", ["C06"]), ("AJ.Props.
   "the ledger must be empty after clear(); double release or release through another allocator aborts the harness; the deserialization memory bound is checked on both deserializers.",
   level_note="C06Mem: deser_memory_linear / mp_deser_memory_linear - for EVERY input, code and failure schedule the memory held by the slot-level deserializers is at most A + B*n (n = bytes consumed; A = one pool + "
   "one maximum-size string while parsing, B = slotSize + 2*poolSize + 1 + string overhead): slots handed out <= n, string bytes <= n, builder/buffer capacity <= maxStrLen, counts announced by MessagePack headers "
-  "allocate nothing in advance; the same bound is checked on the instrumented allocator (total requested and peak) for sampled and hostile inputs; moved-from/swapped documents are covered by the correspondence",
+  "allocate nothing in advance; C06FExact: deser_tight / filtered_deser_tight / deser_strings_stored_once - after a run without allocation failure (filtered or not, any prior document) every stored string is referenced "
+  "exactly as often as its counter says and at least once, no two stored strings are equal, and every live slot is part of the tree (nothing leaked); key_leaked_on_failure: the kernel-checked witness that the "
+  "no-failure hypothesis is needed (a key saved before its member's slot allocation fails stays in the table until clear()); the same bound is checked on the instrumented allocator (total requested and peak) for sampled and hostile inputs; moved-from/swapped documents are covered by the correspondence",
   suites=lambda tier: [S.HistSuite(cfg=G["default"]), S.HistSuite(cfg=G["tiny1"], nh=40 if tier == "quick" else 2000), S.FaultSuite(cfg=G["default"], nh=60 if tier == "quick" else 2000),
                        S.MpDeSuite(cfg=DEF, n=600 if tier == "quick" else 50000), S.DeserMemSuite(cfg=DEF), S.JsonDocSuite(cfg=DEF, n=800 if tier == "quick" else 60000), S.MpDocSuite(cfg=DEF, n=800 if tier == "quick" else 60000), S.LimitSuite(cfg=G["len1"]), S.LimitSuite(cfg=G["id1"]),
                        S.HistSuite(cfg=G["nolonglong"], nh=40 if tier == "quick" else 2000)],
